@@ -72,6 +72,8 @@ def pp(e):
         if ty == 'null':
             return 'null'
         return str(v)
+    if k == 'rawlit':
+        return e[2]                 # ('rawlit', ty, source spelling, value)
     if k == 'obj':
         return e[1]
     if k == 'this':
@@ -225,7 +227,7 @@ class Scope:
 
 def typeof(e, env, sc):
     k = e[0]
-    if k == 'lit':
+    if k in ('lit', 'rawlit'):
         return {'int': 'cint', 'QString': 'cstr', 'null': 'cnull'}.get(e[1], e[1])
     if k == 'obj':
         return 'ptr:' + env.objects[e[1]]
